@@ -258,6 +258,9 @@ class Prov:
         pp = pl['p']
         if len(pp) >= 2 and pp[0] == 'deref' and isinstance(pp[1], dict) and 'f' in pp[1] and 1 <= pl['l'] <= self.fn.arg_count and depth < MAXDEPTH:
             stores = self._field_stores(pl['l'], pp[1]['f'])
+            # only stores that can flow to this use matter
+            stores = [(b, i, st, n) for (b, i, st, n) in stores
+                      if (b == block and i < idx) or (b != block and block in self.fn.reachable(b)) or (b == block and block in [x for s_ in self.fn.succ(b) for x in self.fn.reachable(s_)])]
             if stores:
                 dom = self.fn.dominators().get(block, set())
                 cands = [(b, i, st, n) for (b, i, st, n) in stores if n == 2 and ((b in dom and b != block) or (b == block and i < idx))]
